@@ -42,6 +42,8 @@ def run(R):
         r7(R)
     if R.want("C04.R8"):
         r8(R)
+    if R.want("C04.R9"):
+        r9(R)
 
 
 # --------------------------------------------------------------------------------------------------
@@ -143,6 +145,30 @@ def r8(R):
     last = w[-1] if w else None
     tri = len(w) == 1 and isinstance(w[0][0], tuple) and w[0][1] is True
     R.check(tri, "C04.R8", IDX, rets[0].lineno, "ubitoB", "B = chol(.)^T or chol(.)^-T (upper triangular)", "the returned matrix is not an upper triangular factor")
+
+
+# --------------------------------------------------------------------------------------------------
+def r9(R):
+    """unitcell.__init__ computes g, gi, the reciprocal cell and B once from the lattice parameters it is given and keeps the
+    parameters in self.lattice_parameters (re-read later by TensorMap.dzero_unitcell, point_by_point, tostring ...).  The two describe
+    the same lattice only while the stored parameters cannot change behind the object's back: they must be a copy of the argument."""
+    R.rule("C04.R9", "unitcell.__init__ stores a COPY of the lattice parameters it derives g, gi and B from (np.array(x) / list(x) / x.copy()), "
+                     "not the caller's array itself")
+    m = pyfacts.module(R, UC)
+    fn = m.func("unitcell.__init__")
+    p = fn.args.args[1].arg
+    st = [a for a in ast.walk(fn) if isinstance(a, ast.Assign) and any(src(t) == "self.lattice_parameters" for t in a.targets)]
+    R.shape(len(st) >= 1, "C04.R9", UC, "unitcell.__init__", "the assignment of self.lattice_parameters")
+    for a in st:
+        v = pyfacts.resolved(fn, a.value, 2, keep=(p, "self"))
+        k = pyfacts.copy_kind(v, p)
+        if k is None and not any(isinstance(x, ast.Name) and x.id == p for x in ast.walk(v)):
+            continue       # derived from something else (a later normalisation of the copy)
+        R.shape(k is not None, "C04.R9", UC, "unitcell.__init__", "whether %s copies %s" % (src(a.value)[:50], p))
+        R.check(k, "C04.R9", UC, a.lineno, "unitcell.__init__", src(a)[:70],
+                "%s may be the caller's own array: when the caller later changes it in place, unitcell.lattice_parameters follows while g, gi "
+                "and B (computed once here) do not - one object then describes two lattices, and everything that re-derives B from "
+                "lattice_parameters (TensorMap.dzero_unitcell, point_by_point) disagrees with unitcell.B" % src(a.value)[:50])
 
 
 # --------------------------------------------------------------------------------------------------
